@@ -291,7 +291,9 @@ class ExecGen:
                     nm = ch.choice(["p", "q"])      # deliberately reused: inner associations shadow outer ones
                 if any(sel.startswith(x + "%") for x, _ in self.tb_assoc if x == nm):
                     self.forms.add("associate-shadows-itself")
-                out.append(f"associate ({nm} => {sel})")
+                # (names are case-insensitive: the associate name may be spelt with capitals where it is introduced)
+                spelt = nm.upper() if "assoc_case" not in self.excl and ch.bool(1, 3) else nm
+                out.append(f"associate ({spelt} => {sel})")
                 self.tb_assoc.append((nm, ty))
                 saved = [x for x in self.tb_assoc]
                 # names hidden by this association must not be used as if they had their outer meaning
@@ -405,7 +407,7 @@ def locals_for(scope, syms, ch, tag):
 
 def gen_case(ch: Chooser, excl=()):
     proj, refs, feats, nontrivial = gen_model(ch, excl)
-    text, used = render.render_project(proj, ch, features={"comments": True})
+    text, used = render.render_project(proj, ch, features={"comments": True, "literal_split": "literal_split" not in excl})
     return {"files": text, "refs": refs, "stub": "", "classes": sorted(feats), "nontrivial": nontrivial,
             "n_orders": 1, "order_seed": 0}
 
